@@ -272,7 +272,17 @@ def pmap(fn, shards, seed=0, nproc=None):
     else:
         ctx = multiprocessing.get_context("fork")
         with ctx.Pool(min(nproc, len(shards))) as pool:
-            results = pool.map(_worker, [(s, seed) for s in shards], chunksize=1)
+            if os.environ.get("VERIF_FAILFAST"):
+                # used by the mutation sweeps only: stop at the first shard that reports a violation
+                # (the evidence of such a run is partial and says so; registered commands never set this)
+                results = []
+                for r in pool.imap(_worker, [(s, seed) for s in shards], chunksize=1):
+                    results.append(r)
+                    if r[0] == "error" or r[1].violations:
+                        pool.terminate()
+                        break
+            else:
+                results = pool.map(_worker, [(s, seed) for s in shards], chunksize=1)
     for status, payload in results:
         if status == "error":
             raise MachineryError(payload)
@@ -439,6 +449,8 @@ class Run:
 
 def require(cond, what):
     """Vacuity guard: the exploration must have seen what it is meant to see."""
+    if os.environ.get("VERIF_FAILFAST"):
+        return  # partial run of a mutation sweep: coverage is incomplete by design
     if not cond:
         raise MachineryError(f"vacuity guard failed: {what}")
 
